@@ -177,4 +177,33 @@ def ringMeets (A : List Pt) : Prim → Bool
   | .circ r ctr => discMeetsRing ctr (exportedRadius r) A
   | .poly vs => ringsMeet A vs
 
+/-! ### The envelope prefilter of `STRtree.query`
+
+  The tree returns the geometries whose envelope (bounding box) meets the envelope of the query (expanded by the
+  distance for `dwithin`); the code then applies the exact predicate.  Envelopes are written without `min` / `max`:
+  `min_x(A) ≤ max_x(B)` iff some vertex of `A` has `x ≤` that of some vertex of `B`. -/
+
+/-- The bounding boxes of two vertex lists overlap. -/
+def envOverlap (A B : List Pt) : Bool :=
+  A.any (fun a => B.any (fun b => decide (a.x ≤ b.x))) && B.any (fun b => A.any (fun a => decide (b.x ≤ a.x)))
+    && A.any (fun a => B.any (fun b => decide (a.y ≤ b.y))) && B.any (fun b => A.any (fun a => decide (b.y ≤ a.y)))
+
+/-- The bounding box of `A` meets the square `[c - ρ, c + ρ]²` (envelope of a disc / of a point expanded by `ρ`). -/
+def discEnvOverlap (ctr : Pt) (ρ : Rat) (A : List Pt) : Bool :=
+  A.any (fun a => decide (a.x ≤ ctr.x + ρ)) && A.any (fun a => decide (ctr.x - ρ ≤ a.x))
+    && A.any (fun a => decide (a.y ≤ ctr.y + ρ)) && A.any (fun a => decide (ctr.y - ρ ≤ a.y))
+
+/-- Envelope test of the tree for a primitive query shape (its exported geometry). -/
+def primEnvOverlap (A : List Pt) : Prim → Bool
+  | .rect l w ctr c s => envOverlap A (rectVerts l w ctr c s)
+  | .circ r ctr => discEnvOverlap ctr (exportedRadius r) A
+  | .poly vs => envOverlap A vs
+
+/-- What `find_lanelet_by_shape` evaluates per lanelet polygon: the tree's envelope test, then `intersects`. -/
+def treeMeets (A : List Pt) (s : Prim) : Bool := primEnvOverlap A s && ringMeets A s
+
+/-- What `find_lanelet_by_position` evaluates per lanelet polygon and point: the tree's envelope test for
+    `dwithin(·, tol)`, then the distance predicate. -/
+def treeWithin (tol : Rat) (A : List Pt) (p : Pt) : Bool := discEnvOverlap p tol A && withinTol tol A p
+
 end CR.Geom
